@@ -270,6 +270,8 @@ class Interp:
         raise AnalysisError(f"bound evaluator: comparison in `{src(n)}`")
 
     def getattr(self, o, name: str, n: ast.AST):
+        if isinstance(o, range) and name in ("start", "stop", "step"):
+            return getattr(o, name)
         if isinstance(o, Obj):
             if name in o.attrs:
                 return o.attrs[name]
@@ -470,15 +472,23 @@ def r06_7_bound_formulas(ctx: Ctx, rule: str = "R06.7") -> None:
             run.ok(rule, f"{base_name}:bounds", {"cases": cases})
 
     # binary operations
+    true_pred = Obj(m.find_class("PredicateLiteral"), value=True)
+    # a join as it sits in a tree (common columns resolved to the operands' only column `c`), and an unresolved one
+    JOIN_ATTRS = [
+        {"predicate": true_pred, "min_columns": frozenset({"c"}), "max_columns": frozenset({"c"})},
+        {"predicate": true_pred, "min_columns": frozenset(), "max_columns": frozenset()},
+        {"predicate": true_pred, "min_columns": frozenset(), "max_columns": None},
+    ]
+
     def binary(name: str, reference):
         cls = op(name)
         problem = None
         fi = m.method(cls, "applied_max_rows")
         cases = 0
-        for (lo1, hi1), (lo2, hi2) in itertools.product(list(_bounds_grid()), repeat=2):
-            outs, fmin, fmax = declared(cls, {}, [_rel(lo1, hi1, True), _rel(lo2, hi2, True)])
+        for (lo1, hi1), (lo2, hi2), self_attrs in itertools.product(list(_bounds_grid()), list(_bounds_grid()), JOIN_ATTRS if name == "Join" else [{}]):
+            outs, fmin, fmax = declared(cls, self_attrs, [_rel(lo1, hi1, True), _rel(lo2, hi2, True)])
             for kind, v in outs:
-                where = f"operands with bounds [{lo1}, {hi1}] and [{lo2}, {hi2}]"
+                where = f"operands with bounds [{lo1}, {hi1}] and [{lo2}, {hi2}]" + (f" (each with the single column c; min_columns={set(self_attrs['min_columns'])}, max_columns={self_attrs['max_columns'] if self_attrs['max_columns'] is None else set(self_attrs['max_columns'])})" if self_attrs else "")
                 if kind == "crash":
                     problem = problem or f"{name}: computing the bounds fails ({v}) for {where}"
                     continue
@@ -503,7 +513,7 @@ def r06_7_bound_formulas(ctx: Ctx, rule: str = "R06.7") -> None:
     cases = 0
     for (lo1, hi1), (lo2, hi2) in itertools.product(list(_bounds_grid()), repeat=2):
         for fixed_is_lhs in (False, True):
-            attrs = {"binary": Obj(join), "fixed": _rel(lo1, hi1, True), "fixed_is_lhs": fixed_is_lhs}
+            attrs = {"binary": Obj(join, **JOIN_ATTRS[0]), "fixed": _rel(lo1, hi1, True), "fixed_is_lhs": fixed_is_lhs}
             outs, fmin, fmax = declared(pj, attrs, [_rel(lo2, hi2, True)])
             for kind, v in outs:
                 where = f"a fixed operand with bounds [{lo1}, {hi1}] ({'lhs' if fixed_is_lhs else 'rhs'}) and a target with [{lo2}, {hi2}]"
